@@ -86,6 +86,7 @@ pub(crate) struct Circuit {
     slow_call_count: usize,
     // Half-open trial calls: recorded since entering half-open / admitted and still running
     half_open_completed: usize,
+    half_open_successes: usize,
     half_open_in_flight: std::sync::Arc<AtomicUsize>,
     // Outcomes (is_failure, is_slow) of the last `sliding_window_size` calls
     count_window: VecDeque<(bool, bool)>,
@@ -119,6 +120,7 @@ impl Circuit {
             total_count: 0,
             slow_call_count: 0,
             half_open_completed: 0,
+            half_open_successes: 0,
             half_open_in_flight: std::sync::Arc::new(AtomicUsize::new(0)),
             count_window: VecDeque::new(),
             window_failure_count: 0,
@@ -300,11 +302,10 @@ impl Circuit {
         match self.state {
             CircuitState::HalfOpen => {
                 self.half_open_completed += 1;
-                let success_count = match config.sliding_window_type {
-                    SlidingWindowType::CountBased => self.success_count,
-                    SlidingWindowType::TimeBased => self.time_based_stats().2,
-                };
-                if success_count >= config.permitted_calls_in_half_open {
+                // Trial successes are counted on their own: the time-based window
+                // prunes records by age, which would lose earlier trial successes
+                self.half_open_successes += 1;
+                if self.half_open_successes >= config.permitted_calls_in_half_open {
                     self.transition_to(CircuitState::Closed, config);
                 }
             }
@@ -483,6 +484,7 @@ impl Circuit {
         self.total_count = 0;
         self.slow_call_count = 0;
         self.half_open_completed = 0;
+        self.half_open_successes = 0;
         self.count_window.clear();
         self.window_failure_count = 0;
         self.window_slow_call_count = 0;
